@@ -44,8 +44,8 @@ namespace {
 
 using sysinst::Sys;
 
-enum Kind : int { ProgW, DataW, MmioW, Send, Recv, SemSet, SemClear, SemMask, Poke, RunProg, Ahbm, Audio, TimerProg, DmaExt, NKIND };
-const char* kKindName[] = {"progw", "dataw", "mmiow", "send", "recv", "semset", "semclear", "semmask", "poke", "run", "ahbm", "audio", "timerprog", "dmaext"};
+enum Kind : int { ProgW, DataW, MmioW, Send, Recv, SemSet, SemClear, SemMask, Poke, RunProg, Ahbm, Audio, TimerProg, DmaExt, LoadRaw, NKIND };
+const char* kKindName[] = {"progw", "dataw", "mmiow", "send", "recv", "semset", "semclear", "semmask", "poke", "run", "ahbm", "audio", "timerprog", "dmaext", "loadraw"};
 struct Op {
     int kind = 0;
     uint64_t a = 0, b = 0, c = 0;
@@ -59,6 +59,8 @@ struct Case {
 
 uint16_t W(const std::string& form, const std::vector<long>& v) {
     int w = optable::find_word(form, v);
+    if (w < 0)
+        vf::add_note("inconclusive: instruction form not found: " + form);
     return (uint16_t)(w < 0 ? 0 : w);
 }
 
@@ -175,9 +177,11 @@ void mmio_target(uint64_t sel, uint64_t val, uint16_t& off, uint16_t& v) {
 
 // small programs that dirty interpreter-side state (latches, idle flag, banks, loop frames)
 std::vector<uint16_t> program(unsigned kind, uint16_t v) {
-    switch (kind % 7) {
+    switch (kind % 8) {
     case 0:
         return {0x0000, 0x0000, 0x0000, 0x0000};
+    case 7: // mov ##v, a0h ; cbs a0h, ge: the codebook search keeps a hidden operand (the high half of its last product)
+        return {W("mov(Imm16,Register)", {-1, 28}), v, W("cbs(Axh,CbsCondValue)", {0, 0}), 0x0000, 0x0000, 0x0000};
     case 1: // eint ; brr -1 (idle)
         return {W("eint()", {}), W("brr(RelAddr7,CondValue)", {0x7F, 0})};
     case 2:
@@ -297,6 +301,14 @@ std::string apply(Sys& s, const Op& op) {
                 s.t->MMIOWrite(r, 0);
             s.t->MMIOWrite(0x1DA, 0x0007); // source space 7 (AHBM), destination space 0
             s.t->MMIOWrite(0x1DE, 0x40C0);
+        });
+        break;
+    case LoadRaw: // a host that (optionally) resets the emulator and then loads bytes through the memory pointer it fetched once
+        o = s.guarded([&] {
+            if (op.c & 1)
+                s.t->Reset();
+            for (unsigned k = 0; k < 1 + (op.c >> 1) % 8; ++k)
+                s.retained[(op.a + k) % Teakra::DspMemorySize] = (uint8_t)(op.b + 0x11 * k);
         });
         break;
     case Ahbm:
@@ -462,7 +474,7 @@ vf::Result check(const Case& c) {
 rc::Gen<Op> genOp() {
     using namespace rc;
     return gen::map(gen::tuple(gen::weightedElement<int>({{2, ProgW}, {2, DataW}, {10, MmioW}, {2, Send}, {1, Recv}, {1, SemSet}, {1, SemClear}, {1, SemMask},
-                                                          {2, Poke}, {4, RunProg}, {1, Ahbm}, {2, Audio}, {2, TimerProg}, {2, DmaExt}}),
+                                                          {2, Poke}, {4, RunProg}, {1, Ahbm}, {2, Audio}, {2, TimerProg}, {2, DmaExt}, {3, LoadRaw}}),
                                gen::resize(100, gen::arbitrary<uint64_t>()), vf::u16b(), vf::range<unsigned>(0, 4096)),
                     [](std::tuple<int, uint64_t, uint16_t, unsigned> t) {
                         Op op;
@@ -501,6 +513,7 @@ int main(int argc, char** argv) {
                         });
     };
     p.check = check;
+    p.shrink_budget = 120; // two or three instance constructions per evaluation
     p.encode = encode;
     p.decode = decode;
     p.max_size = 40;
